@@ -446,7 +446,13 @@ def op_merge(w, ev, slot):
             kw['observation_metadata_f'] = CB.make_mdf(fo, ro)
             kw['sample_metadata_f'] = CB.make_mdf(fs, rs)
         other = [p.real for p in partners] if listform else partners[0].real
-        return real.merge(other, **kw)
+        before = list(other) if listform else None
+        res = real.merge(other, **kw)
+        if listform and (len(other) != len(before) or any(
+                x is not y for x, y in zip(other, before))):
+            w.fail('merge.argument_changed', 'merge modified the list of '
+                   'tables it was given')
+        return res
 
     def adopt(res):
         e = exp
@@ -534,11 +540,21 @@ def op_concat(w, ev, slot):
 
     def do(real):
         if via == 1:
-            return biom.concat([real] + [p.real for p in partners],
-                               axis=AXNAME[ax])
-        if via == 2:
+            arg = [real] + [p.real for p in partners]
+            before = list(arg)
+            res = biom.concat(arg, axis=AXNAME[ax])
+        elif via == 2:
             return real.concat(partners[0].real, axis=AXNAME[ax])
-        return real.concat([p.real for p in partners], axis=AXNAME[ax])
+        else:
+            arg = [p.real for p in partners]
+            before = list(arg)
+            res = real.concat(arg, axis=AXNAME[ax])
+        if len(arg) != len(before) or any(x is not y
+                                          for x, y in zip(arg, before)):
+            w.fail('concat.argument_changed', 'concat modified the list of '
+                   'tables it was given (%d entries became %d)'
+                   % (len(before), len(arg)))
+        return res
 
     def adopt(res):
         e = _order_like(exp, [str(i) for i in res.ids(axis=AXNAME[oax])], oax)
